@@ -57,6 +57,7 @@ func (u *Unit) deepCopyInto(st *State, guard *Term, src, dst *Term, t types.Type
 		case *types.Slice:
 			isNil := c.Eq(c.SArr(v), c.Nil())
 			arr := u.allocObj(st)
+			u.assume(guard, c.Eq(u.rootType(c.Root(arr)), u.arrTypeID(tt.Elem())))
 			ns := c.MkSlice(arr, c.Int(0), c.SLen(v), c.SLen(v))
 			// element-wise equality of scalar leaves; nil-ness of reference leaves
 			i := c.BoundVar("dc", SInt)
@@ -87,6 +88,8 @@ func (u *Unit) deepCopyInto(st *State, guard *Term, src, dst *Term, t types.Type
 			dk := "MD:" + ks.Name
 			dom := u.mapDom(st, ks)
 			st.heap[dk] = c.Store(dom, nm, c.Select(dom, v))
+			la := u.mapLenArr(st, ks)
+			st.heap["ML:"+ks.Name] = c.Store(la, nm, c.Select(la, v))
 			for _, ml := range u.mapValLeaves(tt) {
 				arr := u.heapGet(st, ml.key, ArraySort(SRef, ArraySort(ks, ml.sort)))
 				st.heap[ml.key] = c.Store(arr, nm, c.Select(arr, v))
